@@ -380,7 +380,11 @@ class XMLParserMixin(
                 c = int(ref[1:], 16)
             else:
                 c = int(ref)
-            text = chr(c).encode("utf-8")
+            try:
+                text = chr(c).encode("utf-8")
+            except (ValueError, OverflowError):
+                # surrogates and values beyond U+10FFFF are not characters
+                text = "\ufffd".encode("utf-8")
         self.elementstack[-1][2].append(text)
 
     def handle_entityref(self, ref):
